@@ -280,10 +280,10 @@ def d3_tables(chk, repo):
     chk.ob("util.util.bergluescher_angle::formula", okb, "C19.D3",
            "solid angle of the spherical triangle: 2 Im log((1 + v1.v2 + v2.v3 + v3.v1 + i v1.(v2 x v3)) / rho) / 4pi", b.f)
     ok0, det = b.guard("np.dot(v1, np.cross(v2, v3)) == 0", exc=None, before=rets[-1]) if False else (None, None)
-    zero = [s for s in b.body if isinstance(s, ast.If)]
-    chk.ob("util.util.bergluescher_angle::degenerate-triangle", bool(zero) and
-           b.eq(b.ev.term(zero[0].test, at=zero[0]), b.spec("np.dot(v1, np.cross(v2, v3)) == 0")), "C19.D3",
-           "coplanar triples contribute zero (avoids 0/0)", b.f)
+    zero = [r_ for r_ in rets if is_const(b.ctx, b.ev.term(r_.value, at=r_), 0)]
+    chk.ob("util.util.bergluescher_angle::degenerate-triangle", len(zero) == 1 and
+           reached_iff(b, zero[0], b.spec("np.dot(v1, np.cross(v2, v3)) == 0")), "C19.D3",
+           "coplanar triples (and only they) contribute zero (avoids 0/0)", b.f)
 
 
 # ------------------------------------------------------------------ D4
